@@ -95,6 +95,8 @@ def make_pool():
     # collections the CALLER owns: lists of graphs / of diagrams kept between calls
     P["GL"] = [P["G1"].toarray().astype(np.float64), (P["G2"] + P["G2"].T).toarray().astype(np.int64), P["G1"].copy()]
     P["DL"] = [P["D1"].copy(), P["D2"].copy(), P["Dinf"].copy()]
+    P["Dinfl"] = [[0.0, 4.0], [1.0, 3.0], [2.0, 6.0], [0.0, float("inf")]]       # nested lists, the essential class last (ripser's H0 order)
+    P["vals"] = np.array([[0.0, 1.0, -2.0, 3.0, -1.0, 0.5, 2.0, -0.5, 0.0], [0.0, 0.5, -1.0, 1.0, 0.0, 0.0, 1.0, 0.0, 0.0]])
     P["xs"] = np.linspace(-2.0, 2.0, 9)
     P["ys"] = np.linspace(-1.0, 3.0, 9)
     with warnings.catch_warnings():
@@ -210,6 +212,17 @@ def _(P, v):
     out = [persistent_entropy(P["DL"]), list(death_vector(P["DL"])), list(P["pim"].transform(P["DL"][:2])),
            PersistenceLandscaper(hom_deg=1, num_steps=5).fit_transform(P["DL"]), PersLandscapeExact(dgms=P["DL"], hom_deg=1), dig(a)]
     plt.close("all"); return out
+@ep("landscapes from nested lists with a trailing essential class")
+def _(P, v):
+    with warnings.catch_warnings():
+        warnings.simplefilter("ignore")
+        e = PersLandscapeExact(dgms=[P["Dinfl"]], hom_deg=0)
+        a = PersLandscapeApprox(dgms=[P["Dinfl"]], hom_deg=0, start=0, stop=8, num_steps=9)
+    return [e, a, e.p_norm(2), a.sup_norm()]
+@ep("grid landscape on the caller's values array: norms, arithmetic, pairs")
+def _(P, v):
+    L = PersLandscapeApprox(values=P["vals"], hom_deg=0, start=0, stop=8, num_steps=9)
+    return [L.sup_norm(), L.p_norm(1), L.p_norm(2), -L, L * 2.0, L - L, L.values_to_pairs(), L[0]]
 @ep("persistent_entropy", F2)
 def _(P, v): return persistent_entropy(V(P, "D1", v, F2))
 @ep("persistent_entropy list keep_inf")
